@@ -197,12 +197,18 @@ pub fn do_step(db: &Db, step: Step) -> parity_db::Result<()> {
 			db.verif_enact_one().map(|_| ())
 		},
 		Step::EnactAll => {
+			// `enact_logs(false)` also returns false at the end of each log file: keep going
+			// while another flushed file is waiting (what the commit worker's loop does)
 			loop {
-				if db.verif_status().dirty_logs > MAX_DIRTY {
+				let st = db.verif_status();
+				if st.dirty_logs > MAX_DIRTY {
 					db.clean_logs()?;
 				}
 				if !db.verif_enact_one()? {
-					break
+					let st = db.verif_status();
+					if st.read_queue_len == 0 && st.reading.is_none() {
+						break
+					}
 				}
 			}
 			Ok(())
